@@ -1,5 +1,14 @@
 package main
 
+import (
+	"encoding/json"
+	"fmt"
+	"strings"
+
+	"verifh/cases"
+	"verifh/model"
+)
+
 // C08: footnotes name a real witness of each maximum, and every description is
 // a revision expression git itself resolves to the cited object.
 
@@ -41,5 +50,139 @@ func init() {
 			p.MaxAPI, p.MaxCLIFromTLC, p.NRandom, p.MaxTraces = 50000, 500, 1500, 300
 		}
 		runScanProfile(c, p)
+		narrowWitnessLeg(c)
 	}
+	replays["scan-narrow-witness"] = replayScanNarrowWitness
+}
+
+// narrowWitnessLeg: witnesses under saturation. At full width a saturated counter needs a git bomb; in the
+// width-narrowed copy of the real code (capacities 255 / 65535, see C05) a tree with 255 files saturates. The
+// hand-shaped histories below make one tree saturate a count while another, delivered before or after it, is
+// bigger in another dimension; every cited object must attain the reported (saturated) value:
+// min(metric(witness), capacity) = reported (ScanJudge!BadWitnesses with the narrowed capacities).
+func narrowWitnessLeg(c *Ctx) {
+	sub := &Ctx{Prop: c.Prop}
+	sub.Ev.DistinctNT = map[string]bool{}
+	sub.Ev.Extra = map[string]interface{}{}
+	sub.Scratch, _ = mkScratch(c.Scratch)
+	drv := buildNarrowed(sub)
+	// the copy is a model of the code only if its Plus saturates at 8 bits (same gate as C05)
+	raw, err := callDriver(drv, "counts", map[string]interface{}{"ops": []interface{}{}, "table": true})
+	if err != nil {
+		Infra("%v", err)
+	}
+	var cr struct {
+		Width int     `json:"width32"`
+		Table [][]int `json:"table"`
+	}
+	json.Unmarshal(raw, &cr)
+	if cr.Width != 8 || len(cr.Table) != 256 || cr.Table[250][10] != 255 || cr.Table[100][100] != 200 || cr.Table[255][255] != 255 {
+		c.Drift("the width-narrowed copy is not a faithful 8-bit model of this code: witnesses under saturation are not replayed into it")
+		return
+	}
+	cs := saturatedWitnessCases()
+	results, err := runAPI(drv, cs, 8)
+	if err != nil {
+		Infra("narrowed API driver: %v", err)
+	}
+	var jcs []map[string]interface{}
+	src := map[string]cases.ScanCase{}
+	apiErr := map[string]string{}
+	for i := range results {
+		if strings.HasPrefix(results[i].Error, "materialise:") {
+			continue
+		}
+		o := apiObserved(cs[i], &results[i])
+		jc, _ := o.judgeCase(255, 65535)
+		jcs = append(jcs, jc)
+		src[cs[i].ID] = cs[i]
+		apiErr[cs[i].ID] = results[i].Error + tail(results[i].Panic, 12)
+		c.Distinct("narrow-witness:" + cs[i].ID)
+	}
+	c.CountEval(int64(len(jcs)))
+	sat := 0
+	for id, v := range runJudge(c, jcs) {
+		if fl := scanFails["C08"](v); len(fl) > 0 {
+			c.AddViolation(Violation{Predicate: strings.Join(fl, ","), Spec: "ScanJudge!BadWitnesses caps 255/65535 (narrowed copy)",
+				Kind: "scan-narrow-witness", Input: map[string]interface{}{"mode": "api-narrow", "case": src[id]},
+				Observed: map[string]interface{}{"verdict": v, "api": apiErr[id]}})
+		}
+		sat++
+	}
+	c.Note("narrowed copy: %d histories with saturated counters replayed, every cited witness judged against min(metric, capacity)", sat)
+}
+
+// saturatedWitnessCases: tree X saturates a 32-bit (here 8-bit) count through a small bomb; tree Y is bigger in
+// a 64-bit (16-bit) dimension but small in the count; both orders of delivery; one history per count.
+func saturatedWitnessCases() []cases.ScanCase {
+	var out []cases.ScanCase
+	for _, kind := range []string{"file", "link", "sub", "tree"} {
+		for _, order := range []string{"bomb-first", "bomb-last"} {
+			for _, style := range []string{"hash", "full"} {
+				var g model.Graph
+				names := map[int][]byte{1: []byte("a"), 2: []byte("b"), 3: []byte("c"), 4: []byte("d"), 5: []byte("big")}
+				g.Blobs = []int{1, 9000}
+				leafEnt := func(n int) model.Entry {
+					switch kind {
+					case "link":
+						return model.Entry{K: "link", To: 1, N: n, NL: 1}
+					case "sub":
+						return model.Entry{K: "sub", To: 0, N: n, NL: 1}
+					default:
+						return model.Entry{K: "file", To: 1, N: n, NL: 1}
+					}
+				}
+				// leaf with 4 entries, then 3 levels of 4 sub-trees: 4^4 = 256 leaves' entries >= 255
+				g.Trees = append(g.Trees, []model.Entry{leafEnt(1), leafEnt(2), leafEnt(3), leafEnt(4)})
+				for lvl := 0; lvl < 3; lvl++ {
+					p := len(g.Trees)
+					g.Trees = append(g.Trees, []model.Entry{{K: "tree", To: p, N: 1, NL: 1}, {K: "tree", To: p, N: 2, NL: 1},
+						{K: "tree", To: p, N: 3, NL: 1}, {K: "tree", To: p, N: 4, NL: 1}})
+				}
+				bomb := len(g.Trees)
+				// Y: three big files (27 000 bytes: more than the bomb's 256 bytes), few entries of every kind
+				g.Trees = append(g.Trees, []model.Entry{{K: "file", To: 2, N: 1, NL: 1}, {K: "file", To: 2, N: 2, NL: 1}, {K: "file", To: 2, N: 5, NL: 3}})
+				heavy := len(g.Trees)
+				if order == "bomb-first" {
+					// HEAD holds the bomb, its parent the heavy tree: rev-list lists HEAD's tree first
+					g.Commits = []model.Commit{{Tree: heavy, Parents: []int{}}, {Tree: bomb, Parents: []int{1}}}
+				} else {
+					g.Commits = []model.Commit{{Tree: bomb, Parents: []int{}}, {Tree: heavy, Parents: []int{1}}}
+				}
+				g.Normalize()
+				// delivery as `git rev-list --objects` lists it: the tip's tree and its sub-trees, then the parent's
+				ord := &cases.Order{B: []int{1, 2}, C: []int{1, 2}}
+				if order == "bomb-first" {
+					ord.T = []int{4, 3, 2, 1, 5}
+				} else {
+					ord.T = []int{5, 4, 3, 2, 1}
+				}
+				out = append(out, cases.ScanCase{ID: fmt.Sprintf("satw-%s-%s-%s", kind, order, style), G: g, Names: names, Style: style, Family: "satwitness", Ord: ord,
+					Roots: []cases.RootSpec{{O: model.Oid{K: "c", I: 2}, Walk: true, IsRef: true, Name: "refs/heads/main", Kind: "plain"}}})
+			}
+		}
+	}
+	return out
+}
+
+func replayScanNarrowWitness(c *Ctx, raw json.RawMessage) bool {
+	var rp struct {
+		Input struct {
+			Case cases.ScanCase `json:"case"`
+		} `json:"input"`
+	}
+	json.Unmarshal(raw, &rp)
+	sub := &Ctx{Prop: c.Prop}
+	sub.Ev.DistinctNT = map[string]bool{}
+	sub.Ev.Extra = map[string]interface{}{}
+	sub.Scratch, _ = mkScratch(c.Scratch)
+	drv := buildNarrowed(sub)
+	rs, err := runAPI(drv, []cases.ScanCase{rp.Input.Case}, 1)
+	if err != nil {
+		Infra("replay: %v", err)
+	}
+	o := apiObserved(rp.Input.Case, &rs[0])
+	jc, _ := o.judgeCase(255, 65535)
+	v := runJudge(sub, []map[string]interface{}{jc})[rp.Input.Case.ID]
+	return len(scanFails["C08"](v)) > 0
 }
